@@ -201,7 +201,7 @@ func run(w *tr.Writer, input []byte, d *doc, extra tr.E) (toks int, std tr.E) {
 	}
 	for _, t := range out {
 		if t.IsErr {
-			w.Ev("Err", tr.E{"eof": t.Err == io.EOF.Error(), "etext": firstLine(t.Err)})
+			w.Ev("Err", tr.E{"eof": t.Err == io.EOF.Error(), "none": t.Err == "", "etext": firstLine(t.Err)})
 			continue
 		}
 		toks++
